@@ -309,3 +309,34 @@ benign("C13.b-fstring-name", "C13", GR, '''        return "{}_{}{}{}".format(
         if greedy:
             suffix += "_g"
         return f"{symbol_name}_{suffix}"''')
+
+# ---------------------------------------------------------------- C19
+fault("C19.no-escape", "C19", GR, 'rf"\\b{re.escape(match)}\\b"', 'rf"\\b{match}\\b"', "R19.kw-rewrite")
+fault("C19.partial-match", "C19", GR, "                if match == term.recognizer.value:", "                if match:", "R19.kw-rewrite")
+fault("C19.lower-match", "C19", GR, "                if match == term.recognizer.value:", "                if match and match.lower() == term.recognizer.value_cmp:", "R19.kw-rewrite")
+fault("C19.no-keyword-flag", "C19", GR, "                    term.keyword = True\n", "", "R19.kw-rewrite")
+fault("C19.no-ignore-case", "C19", GR, "                        name=match,\n                        ignore_case=term.recognizer.ignore_case,\n", "                        name=match,\n", "R19.kw-rewrite")
+fault("C19.kw-before-collect", "C19", GR, "        self._add_resolve_all_production_symbols()\n        self._enumerate_productions()\n        self._fix_keyword_terminals()\n", "        self._fix_keyword_terminals()\n        self._add_resolve_all_production_symbols()\n        self._enumerate_productions()\n", "R19.kw-rewrite")
+fault("C19.ref-unescaped", "C19", GR, "Location(context), escape(recognizer.name), context.extra.imported_with", "Location(context), recognizer.name, context.extra.imported_with", "R19.inline-form")
+fault("C19.no-inline-guard", "C19", GR, "                and escape(symbol.recognizer.value) == symbol_fqn\n            ):", "                and symbol.recognizer.value == symbol_fqn\n            ):", "R19.qualified-split")
+fault("C19.generated-raising", "C19", GR, "            symbol = self._resolve_generated_symbol(symbol_name)\n            if not symbol:\n                # If there is no multiplicity", "            symbol = self.resolve_symbol_by_name(symbol_name, symbol_ref.location)\n            if not symbol:\n                # If there is no multiplicity", "R19.qualified-split")
+fault("C19.chain-order", "C19", GR, '        value.replace(r"\\"", \'"\')\n        .replace(r"\\\'", "\'")\n        .replace(r"\\\\", "\\\\")\n', '        value.replace(r"\\\\", "\\\\")\n        .replace(r"\\"", \'"\')\n        .replace(r"\\\'", "\'")\n', "R19.escape-chain")
+fault("C19.keyword-shown", "C19", P, '                if terminal.name == "KEYWORD":\n                    continue\n', "", "R19.keyword-rank")
+fault("C19.kw-name-len", "C19", T, "len(symbol.recognizer.name)\n", "len(symbol.name)\n", "R19.keyword-rank")
+benign("C19.b-lookaround", "C19", GR, 'rf"\\b{re.escape(match)}\\b"', 'rf"(?<!\\w){re.escape(match)}(?!\\w)"')
+
+# ---------------------------------------------------------------- C20
+fault("C20.relative-no-realpath", "C20", GR, "        import_path = path.realpath(\n            path.join(path.dirname(context.file_name), import_path)\n        )", "        import_path = path.join(path.dirname(context.file_name), import_path)", "R20.load-once")
+fault("C20.construct-on-hit", "C20", GR, "            if self.file_path in self.grammar.imported_files:\n                self.pgfile = self.grammar.imported_files[self.file_path]\n            else:", "            if False:\n                self.pgfile = self.grammar.imported_files[self.file_path]\n            else:", "R20.load-once")
+fault("C20.register-after-imports", "C20", GR, "        if self.file_path and self.grammar:\n            self.grammar.imported_files[self.file_path] = self\n\n        if imports:",
+      "        if imports:", "R20.register-first",
+      edits=[("        if self.file_path and self.grammar:\n            self.grammar.imported_files[self.file_path] = self\n\n        if imports:", "        if imports:"),
+             ("        else:\n            self.imports = {}\n\n        self._check_overrides()", "        else:\n            self.imports = {}\n\n        if self.file_path and self.grammar:\n            self.grammar.imported_files[self.file_path] = self\n\n        self._check_overrides()")])
+fault("C20.register-only-imported", "C20", GR, "        if self.file_path and self.grammar:\n            self.grammar.imported_files[self.file_path] = self", "        if self.file_path and self.imported_with:\n            self.grammar.imported_files[self.file_path] = self", "R20.register-first")
+fault("C20.delegate-first", "C20", GR, "        try:\n            # Try to get local symbol by FQN in order to override symbols from\n            # imported grammars.\n            return self.symbols_by_name[symbol_fqn]\n        except KeyError:\n            if \".\" in symbol_fqn:",
+      "        if \".\" not in symbol_fqn:\n            return self.symbols_by_name.get(symbol_fqn)\n        else:\n            if \".\" in symbol_fqn:", "R20.resolution")
+fault("C20.kw-order", "C20", GR, "        self._add_resolve_all_production_symbols()\n        self._enumerate_productions()\n        self._fix_keyword_terminals()\n", "        self._fix_keyword_terminals()\n        self._add_resolve_all_production_symbols()\n        self._enumerate_productions()\n", "R20.resolution")
+fault("C20.collect-always", "C20", GR, "                        if rhs_elem.fqn not in self.nonterminals:\n                            # This may happen", "                        if rhs_elem.productions:\n                            # This may happen", "R20.collect-once")
+fault("C20.fqn-name-only", "C20", GR, "    @property\n    def fqn(self):\n        if self.imported_with:\n            return f\"{self.imported_with.fqn}.{self.name}\"\n        return self.name\n\n    @property\n    def action_fqn", "    @property\n    def fqn(self):\n        return self.name\n\n    @property\n    def action_fqn", "R20.resolution")
+benign("C20.b-registry-get", "C20", GR, "            if self.file_path in self.grammar.imported_files:\n                self.pgfile = self.grammar.imported_files[self.file_path]\n            else:",
+       "            if self.file_path in self.grammar.imported_files:\n                self.pgfile = self.grammar.imported_files[self.file_path]\n            else:  # not loaded yet")
